@@ -146,7 +146,11 @@ fn build_bytes(p: &Pos, n: i128, w: u8) -> Option<(Vec<u8>, Item)> {
 fn check(p: &Pos, n: i128, w: u8, ctx: &mut Ctx) -> CaseResult {
     let (bytes, item) = match build_bytes(p, n, w) {
         Some(x) => x,
-        None => return Ok(()),
+        None => {
+            // this head width cannot hold n: not a case
+            ctx.evals = 0;
+            return Ok(());
+        }
     };
     ctx.classf(format!("pos:{}", p.name));
     let near = lattice().contains(&n);
@@ -271,7 +275,9 @@ fn case(g: &mut Gen, ctx: &mut Ctx) -> CaseResult {
     };
     let ps = positions();
     let p = &ps[g.below(ps.len())];
-    let w = *g.pick(&WIDTHS);
+    let arg = if n >= 0 { n as u64 } else { (-1 - n) as u64 };
+    let legal: Vec<u8> = WIDTHS.iter().copied().filter(|w| *w == 16 || *w >= min_width(arg)).collect();
+    let w = *g.pick(&legal);
     ctx.class("gen:random");
     check(p, n, w, ctx)?;
     if g.ratio(1, 4) {
